@@ -298,3 +298,27 @@ def c06(run):
     run.model_check("MC_GeoJSON", timeout=600)
     family_enumerated(run, "geojson", "Gen_GeoJSON", "Trace_GeoJSON")
     family_random(run, "geojson", "Trace_GeoJSON", tier_n(run, 4000, 200000))
+
+FAMILY_MODULE["decode"] = "Trace_Decode"
+
+
+def _canary_decode(e):
+    e["outcome"] = "crash"
+    return e
+
+
+CANARY["decode"] = _canary_decode
+
+
+@prop("C08")
+def c08(run):
+    run.assumptions += ["worker processes run with a 3 GiB address-space limit and a 20 s timeout per input; allocation is measured "
+                        "with runtime.MemStats.TotalAlloc around the decoder calls; coverage-guided fuzzing is not used (another "
+                        "technique family): exploration is grammar- and corruption-directed"]
+    run.extra_cov = {"rule": "inputs up to 64 KiB for WKB / TWKB / WKT / GeoJSON decoders and adapters: every truncation and every "
+                             "4-byte count overwrite (0, 1, 2^31-1, 2^31, 2^32-1) and varint overwrite (2^31..2^64-1) at every offset of "
+                             "small corpus entries, random mutations (byte substitution, count/varint overwrite, delete, duplicate, "
+                             "splice, token insertion) of a corpus of valid encodings of every type, arbitrary bytes, deep nesting; plus "
+                             "TLC-enumerated corruptions of the specification's WKB encodings; non-trivial = every input"}
+    family_enumerated(run, "decode", "Gen_Corrupt", "Trace_Decode", gen_cfg=tier_n(run, "Gen_Corrupt.cfg", "Gen_Corrupt_full.cfg"))
+    family_random(run, "decode", "Trace_Decode", tier_n(run, 12000, 400000))
